@@ -38,6 +38,7 @@ import (
 
 type served struct {
 	mu   sync.Mutex
+	down bool // answer 503: the network side of a refresh fails
 	body []byte
 	etag string
 	lm   string
@@ -50,6 +51,10 @@ func startServer() {
 	srv = httptest.NewServer(http.HandlerFunc(func(w http.ResponseWriter, r *http.Request) {
 		cur.mu.Lock()
 		defer cur.mu.Unlock()
+		if cur.down {
+			w.WriteHeader(503)
+			return
+		}
 		if cur.etag != "" {
 			w.Header().Set("ETag", cur.etag)
 		}
@@ -367,8 +372,22 @@ func newClient(base string, size int) *autoconf.Client {
 	return c
 }
 
-func (e *env) verdict(c *autoconf.Client) string {
-	cfg := c.GetCached()
+// offline is GetCachedOrRefresh while the server only answers 503: the "cached read with a refresh that
+// fails" path (getLatest -> getCached -> fetchFromRemote error -> stale cache or fallback).
+func (e *env) offline(c *autoconf.Client) string {
+	cur.mu.Lock()
+	cur.down = true
+	cur.mu.Unlock()
+	cfg := c.GetCachedOrRefresh(context.Background())
+	cur.mu.Lock()
+	cur.down = false
+	cur.mu.Unlock()
+	return e.verdictOf(cfg)
+}
+
+func (e *env) verdict(c *autoconf.Client) string { return e.verdictOf(c.GetCached()) }
+
+func (e *env) verdictOf(cfg *autoconf.Config) string {
 	if cfg == nil {
 		return "nil"
 	}
@@ -593,6 +612,9 @@ func (e *env) doUpdate(f []string, trace bool) {
 	if !inDomain {
 		o.Kind("clock-stepped-back")
 	}
+	if after == "fallback" {
+		o.Fail("update-ends-in-fallback", "after a completed update with a valid document GetCached=fallback (%s)", e.listing(post, e.logical))
+	}
 	if after != newV && inDomain {
 		o.Fail("update-not-visible", "after a complete update at the newest time GetCached=%s want %s", after, newV)
 	}
@@ -616,6 +638,7 @@ func (e *env) doUpdate(f []string, trace bool) {
 	var rle []string
 	lastV, cnt := "", 0
 	failed := map[string]bool{}
+	offDiff := 0
 	allLogical := map[string]int{}
 	for k, v := range preLogical {
 		allLogical[k] = v
@@ -637,7 +660,7 @@ func (e *env) doUpdate(f []string, trace bool) {
 		}
 		switch {
 		case v == newV || v == before:
-		case !inDomain && !strings.HasPrefix(v, "corrupt") && v != "nil":
+		case !inDomain && !strings.HasPrefix(v, "corrupt") && v != "nil" && !(v == "fallback" && before != "fallback"):
 			// the clock stepped back behind an existing cache file name: "newest" is not the new file; only
 			// model/implementation agreement is checked (stated assumption of the property)
 		case v == "fallback":
@@ -654,6 +677,17 @@ func (e *env) doUpdate(f []string, trace bool) {
 			if !failed["o"] {
 				failed["o"] = true
 				o.Fail("crash-other-version", "crash state %d/%d (%s): GetCached=%s, neither the new %s nor the previous %s", i, len(states), e.listing(st, allLogical), v, newV, before)
+			}
+		}
+		// the same read through GetCachedOrRefresh with the network down
+		if ov := e.offline(e.sclient); ov != v {
+			offDiff++
+			if ov == "fallback" && !failed["r"] {
+				failed["r"] = true
+				o.Fail("refresh-fallback-with-valid-cache", "crash state %d/%d (%s): GetCachedOrRefresh (server down)=fallback, GetCached=%s", i, len(states), e.listing(st, allLogical), v)
+			} else if ov != "fallback" && !failed["r2"] {
+				failed["r2"] = true
+				o.Fail("refresh-differs", "crash state %d/%d (%s): GetCachedOrRefresh (server down)=%s, GetCached=%s", i, len(states), e.listing(st, allLogical), ov, v)
 			}
 		}
 		if v == lastV {
@@ -692,7 +726,7 @@ func (e *env) doUpdate(f []string, trace bool) {
 	if len(cops) == 0 {
 		cops = []string{"none"}
 	}
-	o.Emit("ops=%s states=%s | %s get=%s", strings.Join(cops, ";"), strings.Join(rle, ";"), e.listing(post, e.logical), after)
+	o.Emit("ops=%s states=%s offline-differs=%d | %s get=%s", strings.Join(cops, ";"), strings.Join(rle, ";"), offDiff, e.listing(post, e.logical), after)
 }
 
 // validCacheFile returns the name of a cache file of the state that the real decoder accepts ("" if none).
